@@ -23,6 +23,9 @@ def norm(e, clone_transparent=False):
         if e[1].endswith(('ops::index::Index::index', 'ops::index::IndexMut::index_mut')) and len(args) == 2 and args[1][0] == 'call' \
                 and args[1][1].endswith('MatrixCoordinates::new') and len(args[1][2]) == 2:
             return ('idx', ('call', e[1], (args[0], args[1][2][0])), args[1][2][1])
+        # `p.cast::<U>()` is `p as *const U` (a pointer cast is already transparent in canonical forms)
+        if e[1] in ('core::ptr::const_ptr::cast', 'core::ptr::mut_ptr::cast', 'core::ptr::const_ptr::cast_mut', 'core::ptr::mut_ptr::cast_const') and len(args) == 1:
+            return args[0]
         # cond.then_some(v) is `if cond { Some(v) } else { None }` (v is evaluated either way; it has no effects in a recovered expression)
         if e[1].endswith('bool::then_some') and len(args) == 2:
             return ('ite', args[0], ('agg', ('adt', 'core::option::Option', 'Some', ('0',)), (args[1],)), ('agg', ('adt', 'core::option::Option', 'None', ()), ()))
@@ -30,6 +33,14 @@ def norm(e, clone_transparent=False):
     if t == 'fld' and isinstance(e[1], tuple) and e[1] and e[1][0] == 'down' and str(e[2]) == '0':
         inner = norm(e[1][1], clone_transparent)
         var = e[1][2]
+        # the success payload passes unchanged through error adapters: (r.map_err(f) as Ok).0 = (r as Ok).0, (o.ok_or(e) as Ok).0 = (o as Some).0
+        for _ in range(3):
+            if var == 'Ok' and inner[0] == 'call' and inner[1].endswith('Result::map_err') and len(inner[2]) == 2:
+                inner = inner[2][0]
+            elif var == 'Ok' and inner[0] == 'call' and inner[1].endswith(('Option::ok_or', 'Option::ok_or_else')) and len(inner[2]) == 2:
+                inner, var = inner[2][0], 'Some'
+            else:
+                break
         # (Some(v) as Some).0 = v ;  (Ok(v) as Ok).0 = v
         if inner[0] == 'agg' and isinstance(inner[1], tuple) and inner[1][0] == 'adt' and inner[1][2] == var and len(inner[2]) == 1:
             return norm(inner[2][0], clone_transparent)
@@ -72,7 +83,13 @@ def norm(e, clone_transparent=False):
             out.append(tuple(norm(y, clone_transparent) if isinstance(y, tuple) else y for y in x))
         else:
             out.append(x)
-    return tuple(out)
+    r = tuple(out)
+    # x - (x / d) * d  is  x % d  (integer division: the identity that defines the remainder)
+    if t == 'bin' and len(r) == 4 and r[1] == 'Sub' and isinstance(r[3], tuple) and r[3] and r[3][0] == 'bin' and r[3][1] == 'Mul':
+        for q, d in ((r[3][2], r[3][3]), (r[3][3], r[3][2])):
+            if isinstance(q, tuple) and q and q[0] == 'bin' and q[1] == 'Div' and q[2] == r[2] and q[3] == d:
+                return ('bin', 'Rem', r[2], d)
+    return r
 
 
 def m(pat, e, b=None):
